@@ -40,7 +40,7 @@ FLOORS = {
             "empty-and": 50, "empty-or": 50, "depth>=3": 500},
     "C12": {"pop_count": 100, "ripple_carry": 50, "ripple_saturate": 50, "inputs>14": 50},
     "C13": {"perm-varying": 50, "perm-prefix": 50, "perm-copies": 50, "comb": 50, "comb-wo": 50, "extract": 50,
-            "memo-shared": 200, "prefix-counters": 200},
+            "memo-shared": 200, "prefix-counters": 200, "N>2^53": 100, "N>2^64": 100, "sampled-indices": 300},
     "C14": dict(MIXED, **{"has-complex-window-factor": 100, "block-merge": 5, "block-nest": 3}),
     "C15": {"plant:gap": 20, "plant:overlap": 20, "plant:none": 100, "has-window": 20, "has-transition": 20,
             "weights-derived": 20},
